@@ -52,6 +52,9 @@ fn main() {
     i += 1;
   }
   let seed: u64 = std::env::var("VERIF_SEED").ok().and_then(|s| s.trim().parse::<i128>().ok()).map(|v| v as u64).unwrap_or(1);
+  if let Ok(f) = std::env::var("VERIF_TRACE") {
+    let _ = tracing_subscriber::fmt().with_env_filter(tracing_subscriber::EnvFilter::new(f)).with_writer(std::io::stderr).try_init();
+  }
   engine::install_panic_hook();
   let mut run = Run::new(&id, tier, seed);
   if let Some(path) = replay {
